@@ -107,6 +107,7 @@ inductive Cmd where
   | postAdd (c : Nat) (v : Int)  -- AtomicValue::post_add
   | preSub (c : Nat) (v : Int)   -- AtomicValue::pre_subtract
   | load (c : Nat)            -- AtomicValue::value
+  | await (c : Nat) (v : Int) -- while (counter.value() < v) {}   (phase barrier of a caller)
   | lfAdd (c : Nat) (v : Int) -- LockFree::add
   | setUnf (t : Nat) (v : Int) -- Task::set_number_of_unfinished_parents (reset_hydro_tasks)
   | seed (q t : Nat)          -- initial loop: queues[q]->add_task(t); number_of_tasks.pre_increment()
@@ -114,6 +115,9 @@ inductive Cmd where
   | loadNum                   -- number_of_tasks.value()  (the loop condition)
   | maxC (c : Nat) (v : Int)  -- AtomicValue::max(v) on a free-standing maximum cell
   | loadMx (c : Nat)          -- AtomicValue::value() of a maximum cell
+  | numActive                 -- ThreadSafeVector::get_number_of_active_elements / is_empty / size: _number_taken.value()
+  | maintMark (code arg : Nat) -- place where the environment applies a maintenance call between phases
+                              -- (Model/AtomicsMaint.lean); no transition of the thread itself
 deriving DecidableEq, Repr
 
 /-- value returned to the caller (logged, compared with the implementation) -/
@@ -134,6 +138,8 @@ inductive Res where
   | num (v : Int)
   | maxed (c : Nat)
   | mxval (c : Nat) (v : Int)
+  | active (v : Int)
+  | maint (code arg : Nat)
   | skip
 deriving DecidableEq, Repr
 
@@ -193,6 +199,7 @@ inductive PC where
   | cMax (c : Nat) (v : Int)               -- old = load (first time, and the reload after a failed CAS)
   | cMaxCas (c : Nat) (v old : Int)        -- compare_exchange(old, max(v, old))
   | cLoadMx (c : Nat)                      -- load
+  | loadTaken                              -- load _number_taken
   | popLock (q : Nat) (blocking : Bool)    -- cas_lock queue lock (spin / one attempt)
   | popInit (q : Nat)                      -- plain, under the lock: index = size
   | popScan (q i : Nat)                    -- plain, under the lock: loop test, read _queue[i-1]
@@ -203,6 +210,7 @@ inductive PC where
   | cInc (c : Nat) | cDec (c : Nat) | cPostInc (c : Nat)
   | cPreAdd (c : Nat) (v : Int) | cPostAdd (c : Nat) (v : Int) | cPreSub (c : Nat) (v : Int)
   | cLoad (c : Nat)
+  | cAwait (c : Nat) (v : Int)
   | lfLoad (c : Nat) (v : Int)             -- LockFree::add: old = *atom
   | lfCas (c : Nat) (v old : Int)          -- compare_exchange(old, old + v)
 deriving DecidableEq, Repr
@@ -289,6 +297,7 @@ def dispatch (cfg : Cfg) (th : Thread) : Cmd → Thread
   | .postAdd c v => { th with pc := .cPostAdd c v }
   | .preSub c v => { th with pc := .cPreSub c v }
   | .load c => { th with pc := .cLoad c }
+  | .await c v => { th with pc := .cAwait c v }
   | .lfAdd c v => { th with pc := .lfLoad c v }
   | .setUnf t v => { th with pc := .setUnf t v }
   | .seed q t => { th with pc := .addLock q t .seed }
@@ -298,6 +307,8 @@ def dispatch (cfg : Cfg) (th : Thread) : Cmd → Thread
   | .loadNum => { th with pc := .loadNum }
   | .maxC c v => { th with pc := .cMax c v }
   | .loadMx c => { th with pc := .cLoadMx c }
+  | .numActive => { th with pc := .loadTaken }
+  | .maintMark _ _ => ret th .skip
 
 /-- `lock_dependency` returned true -/
 def tlSucc (c : Ctx) (t : Nat) (th : Thread) : Thread :=
@@ -459,6 +470,7 @@ def exec (cfg : Cfg) (m : Mem) (th : Thread) : Mem × Thread :=
       ({ m with mx := upd m.mx c (if v < old then old else v) }, ret th (.maxed c))
     else (m, { th with pc := .cMax c v })
   | .cLoadMx c => (m, ret th (.mxval c (m.mx c)))
+  | .loadTaken => (m, ret th (.active m.taken))
   | .popLock q blocking =>
     if m.locks (.queue q) then
       (if blocking then (m, th) else (m, ret th (.popped q none)))
@@ -490,6 +502,7 @@ def exec (cfg : Cfg) (m : Mem) (th : Thread) : Mem × Thread :=
   | .cPostAdd c v => ({ m with ctr := upd m.ctr c (m.ctr c + v) }, ret th (.val c (m.ctr c)))
   | .cPreSub c v => ({ m with ctr := upd m.ctr c (m.ctr c - v) }, ret th (.val c (m.ctr c - v)))
   | .cLoad c => (m, ret th (.val c (m.ctr c)))
+  | .cAwait c v => if m.ctr c < v then (m, th) else (m, ret th (.val c (m.ctr c)))
   | .lfLoad c v => (m, { th with pc := .lfCas c v (m.ctr c) })
   | .lfCas c v old =>
     -- while (!atom->compare_exchange_weak(old, old + b)) {}   (a failure reloads `old`)
